@@ -622,6 +622,11 @@ def returned_usizes(fn):
                     res.append((o, label))
                 elif "usize" in t:
                     dd = g.single_def(o["place"]["local"])
+                    for _ in range(6):          # through whole-local moves (the landing copy of a spliced helper's return slot)
+                        if dd is not None and dd[2]["k"] == "Use" and _is_place_op(dd[2]["op"]) and not dd[2]["op"]["place"]["proj"]:
+                            dd = g.single_def(dd[2]["op"]["place"]["local"])
+                        else:
+                            break
                     if dd is not None and dd[2]["k"] == "Aggregate":
                         res += agg_ops(dd[2], label + ".tuple")
                     else:
